@@ -13,7 +13,31 @@ From CG Require Import Base.Prelude Model.Ast Model.Dfa Model.Tables Model.Glob 
 From CG Require Import Spec.Lang Spec.Rx Spec.Meaning Spec.DfaEquiv Spec.Domain.
 From CG Require Import Proofs.RxFacts Proofs.MeaningFacts Proofs.TablesSound Proofs.LangBridge Proofs.DfaMeaning
      Proofs.DomainFacts Proofs.SimGen Proofs.TablesKeys Proofs.TableLookup Proofs.WordTokens Proofs.SubwordMatch
-     Proofs.BashMeaningLit.
+     Proofs.BashMeaningLit Proofs.SubwordComplete Proofs.LevelsFacts Proofs.SubwordFacts Proofs.StripFacts.
+
+Lemma append_cancel_r a : forall b c, append a c = append b c -> a = b.
+Proof.
+  induction a as [| x a IH]; intros [| y b] c H; cbn [append] in H.
+  - reflexivity.
+  - exfalso. apply (f_equal String.length) in H. cbn [String.length] in H. rewrite length_append' in H. lia.
+  - exfalso. apply (f_equal String.length) in H. cbn [String.length] in H. rewrite length_append' in H. lia.
+  - inversion H as [[H1 H2]]. f_equal. eapply IH. exact H2.
+Qed.
+
+Lemma append_cancel_l a b c : append a b = append a c -> b = c.
+Proof. intro H. apply (f_equal (Meaning.sdrop (String.length a))) in H. rewrite !sdrop_app in H. exact H. Qed.
+
+Lemma prefix_app_self a b : String.prefix (append a b) a = true -> b = EmptyString.
+Proof.
+  intro H. apply prefix_split in H. rewrite append_assoc in H.
+  assert (E : append a EmptyString = append a (append b (Meaning.sdrop (String.length (append a b)) a))) by (rewrite append_nil_r; exact H).
+  apply append_cancel_l in E. destruct b; [reflexivity | discriminate].
+Qed.
+
+Lemma rpath_lit_word x ls x' : lit_word x -> rpath x ls x' -> lit_word x'.
+Proof.
+  intros L H. induction H as [r | r a k ls r' Hlf _ IH]; [exact L |]. apply IH. apply (lit_word_lf r a k L Hlf).
+Qed.
 
 Definition inp_of_wleaf (a : wleaf) : inp :=
   match a with WLit t d l => ILit t d l | WCmd c l => ICmd c l | WAny => IStar end.
@@ -272,5 +296,172 @@ Section WordSim.
       - intros [s' [Hr Hacc]]. apply memN_In' in Hacc.
         destruct (tok_run_lang_fwd _ _ _ Hr [x] wrel_start Hacc) as [k [ls [[<- | []] [Hden ->]]]]. eauto. }
     destruct b; destruct (waccepts en x w); try reflexivity; [symmetry; apply Hw; reflexivity | apply Hw; reflexivity].
+  Qed.
+
+  (** *** the completing half of the script's within-word function = [wproper] *)
+
+  (** continuations of the text [w] from the set of residuals [S]: (level, what they make of [w]) *)
+  Definition cand (S : list (rx wleaf)) (w : string) (l : N) (o : string) : Prop :=
+    exists e ls e' rest t d k, In e S /\ rpath e ls e' /\ w = append (wconcat ls) rest
+                               /\ In (WLit t d l, k) (lf e') /\ String.prefix rest t = true /\ o = append (wconcat ls) t.
+
+  Lemma wcands_cand en p l o : In (l, o) (wcands en x p) <-> cand [x] p l o.
+  Proof.
+    unfold wcands, wsplits_of. rewrite in_flat_map. split.
+    - intros [[[e' dn] rest] [Hs H]]. apply in_flat_map in H. destruct H as [[a0 k] [Hlf H]]. cbn [fst] in H.
+      destruct (wsplits_sound en _ _ _ _ _ _ _ Hlw Hs) as [ls [Hp [Hd Hr]]]. cbn [append] in Hd. subst dn.
+      pose proof (rpath_lit_word x ls e' Hlw Hp) as Le'.
+      destruct (lit_word_lf e' a0 k Le' Hlf) as [[t [d [l0 [-> _]]]] _].
+      destruct (String.prefix rest t) eqn:Ep; [| destruct H]. destruct H as [E | []]. inversion E; subst.
+      exists x, ls, e', rest, t, d, k. repeat split; try assumption. left; reflexivity.
+    - intros [e [ls [e' [rest [t [d [k [[<- | []] [Hp [-> [Hlf [Ep ->]]]]]]]]]]]].
+      exists (e', wconcat ls, rest). split.
+      + pose proof (wsplits_complete en ls x e' EmptyString rest (String.length (append (wconcat ls) rest)) Hlw Hp (le_n _)) as H.
+        cbn [append] in H. exact H.
+      + apply in_flat_map. exists (WLit t d l, k). split; [exact Hlf |]. cbn [fst]. rewrite Ep. left; reflexivity.
+  Qed.
+
+  Lemma S_lit_word s S e : wrel s S -> In e S -> lit_word e.
+  Proof. intros R He b Hb. apply Hlw. apply (wr_leaves _ _ R e He b Hb). Qed.
+
+  Lemma same_text s S t1 d1 l1 k1 t2 d2 l2 k2 :
+    wrel s S -> In (WLit t1 d1 l1, k1) (mvs S) -> In (WLit t2 d2 l2, k2) (mvs S) -> String.prefix t1 t2 = true -> t1 = t2.
+  Proof.
+    intros R H1 H2 Hp. destruct Hdom as [_ [Hpf _]].
+    destruct (Hpf t1 t2 (text_in_x s S t1 d1 l1 k1 R H1) (text_in_x s S t2 d2 l2 k2 R H2)) as [E | [E _]]; [exact E | congruence].
+  Qed.
+
+  Lemma cand_stop s S w l o :
+    wrel s S -> (forall t d l k, In (WLit t d l, k) (mvs S) -> String.prefix t w = false) ->
+    (cand S w l o <-> exists t d k, In (WLit t d l, k) (mvs S) /\ String.prefix w t = true /\ o = t).
+  Proof.
+    intros R Hstop. split.
+    - intros [e [ls [e' [rest [t [d [k [He [Hp [Ew [Hlf [Ep Eo]]]]]]]]]]]].
+      destruct Hp as [r | r a0 k1 ls r' Hlf1 Hp'].
+      + cbn [wconcat append] in *. subst. exists t, d, k. split; [apply mvs_In; exists r; split; assumption | split; [exact Ep | reflexivity]].
+      + exfalso. destruct (lit_word_lf r a0 k1 (S_lit_word s S r R He) Hlf1) as [[t1 [d1 [l1 [-> _]]]] _].
+        assert (Hin : In (WLit t1 d1 l1, k1) (mvs S)) by (apply mvs_In; exists r; split; assumption).
+        pose proof (Hstop t1 d1 l1 k1 Hin) as Hf. rewrite Ew in Hf. cbn [wconcat wtext] in Hf.
+        rewrite append_assoc, prefix_app_l in Hf. discriminate.
+    - intros [t [d [k [Hin [Ep ->]]]]]. apply mvs_In in Hin. destruct Hin as [r [Hr Hlf]].
+      exists r, [], r, w, t, d, k. repeat split; try assumption. constructor.
+  Qed.
+
+  Lemma cand_cons_fwd s S lit d0 l0 k0 w' l o :
+    wrel s S -> In (WLit lit d0 l0, k0) (mvs S) ->
+    cand S (append lit w') l o -> o = append lit w' \/ exists o', o = append lit o' /\ cand (wnext_lit lit (mvs S)) w' l o'.
+  Proof.
+    intros R Hlit [e [ls [e' [rest [t [d [k [He [Hp [Ew [Hlf [Ep Eo]]]]]]]]]]]].
+    destruct Hp as [r | r a0 k1 ls r' Hlf1 Hp'].
+    - left. cbn [wconcat append] in *. subst rest o.
+      assert (Hin : In (WLit t d l, k) (mvs S)) by (apply mvs_In; exists r; split; assumption).
+      assert (Hpt : String.prefix lit t = true) by (eapply prefix_trans; [apply prefix_app_l | exact Ep]).
+      pose proof (same_text s S lit d0 l0 k0 t d l k R Hlit Hin Hpt) as E. subst t.
+      apply prefix_app_self in Ep. subst w'. rewrite append_nil_r. reflexivity.
+    - right. destruct (lit_word_lf r a0 k1 (S_lit_word s S r R He) Hlf1) as [[t1 [d1 [l1 [-> _]]]] _].
+      assert (Hin : In (WLit t1 d1 l1, k1) (mvs S)) by (apply mvs_In; exists r; split; assumption).
+      cbn [wconcat wtext] in Ew, Eo. rewrite append_assoc in Ew.
+      assert (P1 : String.prefix lit (append lit w') = true) by apply prefix_app_l.
+      assert (P2 : String.prefix t1 (append lit w') = true) by (rewrite Ew; apply prefix_app_l).
+      assert (E : lit = t1).
+      { destruct (prefixes_comparable lit t1 _ P1 P2) as [Hc | Hc].
+        - apply (same_text s S lit d0 l0 k0 t1 d1 l1 k1 R Hlit Hin Hc).
+        - symmetry. apply (same_text s S t1 d1 l1 k1 lit d0 l0 k0 R Hin Hlit Hc). }
+      subst t1. apply append_cancel_l in Ew.
+      exists (append (wconcat ls) t). split; [rewrite Eo; apply append_assoc |].
+      exists k1, ls, r', rest, t, d, k. repeat split; try assumption. apply wnext_lit_In. eauto.
+  Qed.
+
+  Lemma cand_cons_bwd S lit w' l o' :
+    cand (wnext_lit lit (mvs S)) w' l o' -> cand S (append lit w') l (append lit o').
+  Proof.
+    intros [e1 [ls [e' [rest [t [d [k [He [Hp [Ew [Hlf [Ep Eo]]]]]]]]]]]].
+    apply wnext_lit_In in He. destruct He as [d1 [l1 Hin]]. apply mvs_In in Hin. destruct Hin as [r [Hr Hlf1]].
+    exists r, (WLit lit d1 l1 :: ls), e', rest, t, d, k. repeat split; try assumption.
+    - econstructor; eassumption.
+    - cbn [wconcat wtext]. rewrite append_assoc, Ew. reflexivity.
+    - cbn [wconcat wtext]. rewrite append_assoc, Eo. reflexivity.
+  Qed.
+
+  Lemma cand_greedy s w s' cp : greedy Tw s w s' cp -> forall S, wrel s S ->
+    exists mp S', w = append mp cp /\ wrel s' S'
+                  /\ (forall t d l k, In (WLit t d l, k) (mvs S') -> String.prefix t cp = false)
+                  /\ forall l o, (cand S w l o /\ o <> w) <-> exists o', o = append mp o' /\ cand S' cp l o'.
+  Proof.
+    induction 1 as [s w Hstop | s lit to rest s' cp Hen Hg IH]; intros S R.
+    - assert (Hstop' : forall t d l k, In (WLit t d l, k) (mvs S) -> String.prefix t w = false).
+      { intros t d l k Hin. destruct (witem_is_trans s S t d l k R Hin) as [to Htr].
+        apply (Hstop t to). apply (enabled_complete s t d l to Htr). }
+      exists EmptyString, S. split; [reflexivity | split; [exact R | split; [exact Hstop' |]]].
+      intros l o. cbn [append]. split.
+      + intros [Hc _]. exists o. split; [reflexivity | exact Hc].
+      + intros [o' [-> Hc]]. split; [exact Hc |]. intro E. subst o'.
+        apply (cand_stop s S w l w R Hstop') in Hc. destruct Hc as [t [d [k [Hin [Hp Et]]]]]. subst t.
+        rewrite (Hstop' w d l k Hin) in Hp. discriminate.
+    - destruct (enabled_item s S lit to R Hen) as [d0 [l0 [k0 [Hmv Htr]]]].
+      pose proof (wrel_trans s S lit d0 l0 to R Htr) as R1.
+      destruct (IH _ R1) as [mp1 [S' [Er [R' [Hstop' Hiff]]]]].
+      exists (append lit mp1), S'. split; [rewrite Er; symmetry; apply append_assoc | split; [exact R' | split; [exact Hstop' |]]].
+      intros l o. split.
+      + intros [Hc Hne]. destruct (cand_cons_fwd s S lit d0 l0 k0 rest l o R Hmv Hc) as [E | [o1 [-> Hc1]]]; [contradiction |].
+        assert (Hne1 : o1 <> rest) by (intro E; subst; apply Hne; reflexivity).
+        destruct (proj1 (Hiff l o1) (conj Hc1 Hne1)) as [o' [-> Hc']].
+        exists o'. split; [symmetry; apply append_assoc | exact Hc'].
+      + intros [o' [-> Hc']]. destruct (proj2 (Hiff l (append mp1 o')) (ex_intro _ o' (conj eq_refl Hc'))) as [Hc1 Hne1].
+        split.
+        * rewrite append_assoc. apply cand_cons_bwd. exact Hc1.
+        * intro E. rewrite append_assoc in E. apply append_cancel_l in E. contradiction.
+  Qed.
+
+  Lemma Hnoccmd_tables cc L s : t_ccmd Tw = Some cc -> level_row cc L s = [].
+  Proof.
+    intro Hcc. destruct (level_row cc L s) as [| id r] eqn:E; [reflexivity | exfalso].
+    destruct (glt_inv _ _ _ _ _ _ _ _ Hglt) as [rt F].
+    assert (K : Forall (fun lv : list (N * list N) => NoDup (map fst lv)) cc).
+    { destruct (gf_ccmd _ _ _ _ _ _ _ _ _ F) as [[_ [m [Hm Em]]] | [_ Em]]; rewrite Em in Hcc; [| discriminate].
+      inversion Hcc; subst m. eapply completion_table_keys. exact Hm. }
+    assert (M : mem3 cc (N.of_nat L) s id).
+    { apply (mem3_level_row cc (N.of_nat L) s id K). rewrite Nat2N.id. unfold level_row in E. rewrite E. left; reflexivity. }
+    apply (ccmd_exact sd cmds 0 nc ncp ns ord Tw Hwf Hglt cc (N.of_nat L) s id Hcc) in M.
+    destruct M as [cm [to [Htr _]]]. destruct (trans_related s _ to Htr) as [S R].
+    destruct (wtrans_is_item s S _ to R Htr) as [w' [d' [l' [k [Eq _]]]]]. discriminate.
+  Qed.
+
+  Theorem subword_complete_meaning (a : alltables) (benv : BashSem.env) (en : Meaning.env) (p : string) (log : list invocation) :
+    d_start sd = 0 -> e_ignore_case benv = false -> printable_str p = true ->
+    exists reply, subword_complete Repaired a benv Tw p log = Ok (reply, log)
+                  /\ forall o, In o reply <-> In o (wproper en x p).
+  Proof.
+    intros H0 Hic Hpr.
+    destruct (subword_complete_tables a benv Tw Hnocmd_tables Hnostar_tables Hne_tables Hpf_tables Hic Hnoccmd_tables p log Hpr)
+      as [st' [cp [mp [Er [Ep Hg]]]]].
+    eexists. split; [exact Er |].
+    assert (R0 : wrel 0 [x]) by (rewrite <- H0; apply wrel_start).
+    destruct (cand_greedy 0 p st' cp Hg [x] R0) as [mp' [S' [Ep' [R' [Hstop Hiff]]]]].
+    assert (mp' = mp) by (rewrite Ep in Ep'; symmetry; eapply append_cancel_r; exact Ep'). subst mp'.
+    unfold wproper. apply first_nonempty_lowest.
+    - intros L o. rewrite filter_In. cbn [snd]. rewrite wcands_cand.
+      assert (Hsp : (cand [x] p (N.of_nat L) o /\ negb (String.eqb o p) = true)
+                    <-> exists t d k, In (WLit t d (N.of_nat L), k) (mvs S') /\ String.prefix cp t = true /\ o = append mp t).
+      { rewrite negb_true_iff, String.eqb_neq, (Hiff (N.of_nat L) o). split.
+        - intros [o' [-> Hc]]. apply (cand_stop st' S' cp _ o' R' Hstop) in Hc. destruct Hc as [t [d [k [Hin [Hp ->]]]]]. exists t, d, k. repeat split; assumption.
+        - intros [t [d [k [Hin [Hp ->]]]]]. exists t. split; [reflexivity |]. apply (cand_stop st' S' cp _ t R' Hstop). exists t, d, k. repeat split; assumption. }
+      rewrite Hsp. unfold sw_offered. rewrite filter_In, in_map_iff. split.
+      + intros [[id [<- Hid]] Hp]. rewrite <- (Nat2N.id L) in Hid.
+        apply (level_row_lit sd cmds nc ncp ns ord Tw Hwf Hord Hglt) in Hid. destruct Hid as [text [dso [to [Htr Hl]]]].
+        rewrite (literal_at_lit sd cmds nc ncp ns ord Tw Hglt id text _ Hl) in *.
+        destruct (wtrans_is_item st' S' _ to R' Htr) as [w' [d' [l' [k [Eq Hin]]]]]. inversion Eq; subst w' d' l'.
+        exists text, dso, k. split; [exact Hin | split; [| reflexivity]]. rewrite prefix_app in Hp. exact Hp.
+      + intros [t [d [k [Hin [Hp ->]]]]]. destruct (witem_is_trans st' S' t d _ k R' Hin) as [to Htr].
+        pose proof Htr as [i [_ Hn]]. destruct (valid_order_covers sd ord 0 i t d _ Hvalid Hn) as [id Hl].
+        split; [| rewrite prefix_app; exact Hp].
+        exists id. split; [rewrite (literal_at_lit sd cmds nc ncp ns ord Tw Hglt id t _ Hl); reflexivity |].
+        rewrite <- (Nat2N.id L). apply (level_row_lit sd cmds nc ncp ns ord Tw Hwf Hord Hglt). eauto.
+    - intros l o Hin. apply filter_In in Hin. destruct Hin as [Hin Hne']. cbn [snd] in Hne'. apply wcands_cand in Hin.
+      apply negb_true_iff, String.eqb_neq in Hne'.
+      destruct (proj1 (Hiff l o) (conj Hin Hne')) as [o' [-> Hc]].
+      apply (cand_stop st' S' cp l o' R' Hstop) in Hc. destruct Hc as [t [d [k [Hmv _]]]].
+      destruct (witem_is_trans st' S' t d l k R' Hmv) as [to Htr].
+      apply (level_in_range sd cmds nc ncp ns ord Tw Hwf Hord Hglt l st' t d to Hvalid Htr).
   Qed.
 End WordSim.
